@@ -32,11 +32,11 @@ def setView : ViewRel where
 
 /-- every compaction of the history, at the moment it starts, produces outputs that read like
     its inputs -/
-def HistOk (R : ViewRel) : PState → List Sched → Prop
+def SchedHistOk (R : ViewRel) : PState → List Sched → Prop
   | _, [] => True
   | p, x :: h =>
     (match x with
      | .compact ins outs => R.r (outs.map (·.2)).flatten (ins.map p.tableEnts).flatten
-     | _ => True) ∧ HistOk R (p.step x).2 h
+     | _ => True) ∧ SchedHistOk R (p.step x).2 h
 
 end Badger
